@@ -109,6 +109,25 @@ def run(ctx: Ctx) -> dict:
             ops.append({"op": "variants", "kind": "iban", "t": t, "u": u})
     for s in ("GENODEM1GLS", "DEUTDEFF"):
         ops.append({"op": "variants", "kind": "bic", "t": cps(s), "u": cps(" " + " ".join(s) + " ")})
+    # components handed to generate / from_components are input too: written with white space inside and
+    # in lower case (and shorter than their field) they must give what the plain spelling gives - every
+    # such call is judged by the generation verdicts (TraceGenerate: the CLEANED components are carried)
+    import c08
+    gops = []
+    for row in rows:
+        if not row["haspos"]:
+            continue
+        cc = gen.cc_of(row)
+        wb, wr, wa = (c08.width(row, n) for n in ("bank_code", "branch_code", "account_code"))
+        for k in range(2 if ctx.quick else 12):
+            bank = c08.field_chars(row, "bank_code", rng, rng.choice([wb, max(wb - 1, 0)]))
+            branch = c08.field_chars(row, "branch_code", rng, rng.choice([wr, max(wr - 1, 0)])) if wr else ""
+            acct = c08.field_chars(row, "account_code", rng, rng.choice([wa, max(wa - 2, 1), max(wa - 1, 1)]))
+            for spell in (lambda s: s, lambda s: text(variant_of(cps(s), rng, gen.SPACES)) if s else s):
+                gops.append({"op": "iban.generate" if k % 2 else "bban.from_components", "cc": cps(cc),
+                             "bank": cps(spell(bank)), "branch": cps(spell(branch)), "acct": cps(spell(acct))})
+    gev = calls.execute(ctx, gops, "c10gen")
+    calls.report(ctx, calls.validate(ctx, "TraceGenerate", gev, env, "c10gen", per_shard=3000), None, c08.keyfn)
     # characters that are NOT white space must not be ignored (zero width space, BOM, NUL ...)
     events = calls.execute(ctx, ops, "c10")
     for e in events:     # the flags must cover both texts
